@@ -264,7 +264,7 @@ def phaseC_worker(args):
                     stats["nontrivial"][k] = stats["nontrivial"].get(k, 0) + 1
             for fd in F:
                 findings.append({"uid": uid, "case": cid, "rule": rule, "input": inp, **fd.as_dict()})
-            if len(samples) < 2 and r0 and (r0[0] == "ok" or r0[1] > 0):
+            if len(samples) < 2 and r0 and (r0[0] == "ok" or (r0[0] == "err" and r0[1] > 0)):
                 samples.append({"rule": rule, "input": inp, "observed": list(r0)[:2] + [str(x)[:200] for x in list(r0)[2:]]})
         out.append({"uid": uid, "base": u["base"], "variant": u["variant"], "counters": counters,
                     "findings": findings[:50], "nfindings": len(findings), "stats": stats,
